@@ -63,6 +63,7 @@ mutual
     | .list [.atom "exit"] => some (.exit none)
     | .list [.atom "exit", n] => do pure (.exit (some (← n.nat?)))
     | .list [.atom "sete", n] => do pure (.setE ((← n.nat?) != 0))
+    | .list [.atom "setm", n] => do pure (.setM ((← n.nat?) != 0))
     | .list [.atom "call", n] => do pure (.call (← toName n))
     | .list [.atom "unk"] => some .unknown
     | .list [.atom "tick", c, k] => do pure (.tick (← c.nat?) (← k.nat?))
